@@ -2,6 +2,7 @@ import Mg.Basic
 import Bd.MergeSame
 import Bd.Rle
 import Bd.ConflictFree
+import Bd.MergeTruth
 
 /-! # C07 — property theorems (statements only; proofs live in the family libraries) -/
 
@@ -92,6 +93,32 @@ theorem resolve_known :
     (hall : ∀ v ∈ l :: ols, Mg.isMark v = true ∨ v = t) (hone : t ∈ l :: ols),
     Mg.resolve day l ols = (t, 0) :=
   @Bd.resolve_known
+end
+
+section
+open Bd Fu Mg
+
+/-- one file name through `BurndownAnalysis.Merge`: whatever the flag says and whoever holds the file, a conflict-free
+`mergeKey` succeeds, leaves the expected file in every listed branch (the true origin wherever some copy knows it - never a
+later tick, never the mark), touches no other file name, and appends exactly the expected reports -/
+theorem mergeKey_conflict_free :
+    ∀ (bs : List Nat) (flags : List (Nat × Bool)) (day : Nat) (w : W) (key : Nat)
+    (truth : List Nat) (hcf : flagged flags key = true → ConflictFreeAt w bs key truth),
+    ∃ w', mergeKey bs flags day w key = .ok w' ∧
+      (∀ b ∈ bs, brFile (w'.br b) key = expectedFile (flagged flags key) (copiesOf w bs key) truth day) ∧
+      (∀ k, k ≠ key → ∀ b, brFile (w'.br b) k = brFile (w.br b) k) ∧
+      w'.evs = w.evs ++ expectedReports (flagged flags key) (copiesOf w bs key) truth day :=
+  @Bd.mergeKey_conflict_free
+
+/-- the file names the merge visits: every name flagged on some branch -/
+theorem mem_mergeKeys :
+    ∀ (flags : List (Nat × Bool)) (k : Nat), k ∈ mergeKeys flags ↔ ∃ v, (k, v) ∈ flags :=
+  @Bd.mem_mergeKeys
+
+/-- ... once each, in increasing order (the order of the reports does not depend on map iteration) -/
+theorem mergeKeys_sorted :
+    ∀ (flags : List (Nat × Bool)), (mergeKeys flags).Pairwise (· < ·) :=
+  @Bd.mergeKeys_sorted
 end
 
 end Props.C07
